@@ -53,22 +53,86 @@ class C02Suite(cc.ChainSuite):
         return msgs
 
 
+def to_ptr(cases):
+    """the same scenarios with case kind `chainp`: harness and driver additionally print the pointer digests"""
+    for c in cases:
+        w = c["lines"][0].split()
+        w[2] = "chainp"
+        c["lines"][0] = " ".join(w)
+    return cases
+
+
+class C02PtrSuite(C02Suite):
+    """The POINTER-LEVEL model (lean/CoclsModel/ChainPtr.lean, proved to refine Chain.lean) against the real headers: after every
+    operation both sides print the awaiter slot and the `_next` field of every waiter node that is alive (`p head=.. n<i>=..`),
+    and each non-blocking waiter's own `_next` when it reads the result (`po w<i> n=..`)."""
+    name = "ptr-level"
+    driver = "drv_c02p"
+    corpus_prefix = "c02p_"
+
+    def gen_cases(self, rng, tier):
+        if tier == "quick":
+            return to_ptr(cc.gen_random(rng, 300, 0, 2, 1, 3))
+        return to_ptr(cc.gen_random(rng, 6000, 0, 2, 1, 4)
+                      + [c for c in cc.gen_exhaustive_pairs(11) if c["lines"][2].startswith("w")]
+                      + cc.gen_exhaustive_triples(rng, 9, 6))
+
+    def oracle(self, case, out):
+        msgs = C02Suite.oracle(self, case, out)
+        # what the list-level trace cannot show: a pointer to something that is not an awaiter node, and a waiter that
+        # reads its result while its node is still linked
+        for l in out:
+            w = l.split()
+            if not w:
+                continue
+            if w[0] == "p" and any(x.endswith("=?") for x in w[1:]):
+                msgs.append("dangling: the slot or a `_next` field points to something that never was an awaiter node (%s)" % l)
+                break
+            if w[0] == "po" and w[2] != "n=null":
+                msgs.append("linked: waiter %s reads the result while its node's `_next` is %s" % (w[1], w[2][2:]))
+                break
+        return msgs
+
+    def stats(self, cases, outs):
+        st = cc.ChainSuite.stats(self, cases, outs)
+        plines = retries = refused = maxlen = 0
+        for o in outs.values():
+            for l in o:
+                if l.startswith("p "):
+                    plines += 1
+                    maxlen = max(maxlen, sum(1 for x in l.split()[2:] if x.split("=")[1].startswith("w")) + (1 if l.split()[1] != "head=null" and l.split()[1] != "head=ready" else 0))
+                elif " cas- slot ready" in l:
+                    refused += 1
+                elif " cas- " in l:
+                    retries += 1
+        st["pointer_digests"] = plines
+        st["cas_retries"] = retries
+        st["refused_subscriptions"] = refused
+        st["longest_chain_seen"] = maxlen
+        return st
+
+
 class C02(Spec):
     pid = "C02"
     lean_modules = ["CoclsModel.Props.C02"]
     design_ref = "DESIGN.md §5 C02"
     technique = "Lean 4 invariant proof over all schedules of a micro-step model + step-for-step differential replay on the real headers under a baton scheduler"
     level_text = ("Lean 4 theorems over the micro-step chain model (any number of waiters of every kind, resolver of every kind, every schedule): released at most once, "
-                  "never before the result is set, observes the final result, nobody left parked once the resolver finished, no stuck state. Tied to the code by replaying "
-                  "generated and exhaustively enumerated small schedules on the unmodified headers under the baton scheduler; oracles on the implementation trace.")
-    level_note = ("trusted: Lean kernel; hand-written list-level model; baton shim (SC interleavings; weak memory is C03's); notify_all after the releasing store assumed "
-                  "to use only the address of the atomic (libstdc++ does).")
+                  "never before the result is set, observes the final result, nobody left parked once the resolver finished, no stuck state. A pointer-level model "
+                  "(slot, intrusive `_next` fields, the walker's local pointer: ChainPtr.lean) is proved to refine the list-level one (simulation theorem c02_ptr_refines_list, "
+                  "for all configurations and schedules), with node-lifetime safety (c02_walk_safe: no access to a dead awaiter node; c02_no_touch_after_publish). Tied to the code by replaying "
+                  "generated and exhaustively enumerated small schedules on the unmodified headers under the baton scheduler — list level: every operation line; pointer level: "
+                  "additionally the real slot and `_next` values after every operation; oracles on the implementation trace.")
+    level_note = ("trusted: Lean kernel; hand-written models (the list abstraction of the pointer-level model is a theorem); baton shim (SC interleavings; weak memory is C03's); "
+                  "notify_all after the releasing store assumed to use only the address of the atomic (libstdc++ does); node lifetimes (when a stack awaiter / coroutine frame / "
+                  "callback closure may go) are ghost state of the model, as the C++ object model specifies them.")
     trusted_base = ["model lean/CoclsModel/Chain.lean tied to awaiter.h/future.h/async.h by step-for-step replay (harness/h_chain.cpp) against lean/Drivers/C01.lean",
+                    "model lean/CoclsModel/ChainPtr.lean tied to awaiter.h by step-for-step replay of operations and pointer digests (harness/h_chain.cpp, case kind chainp) against lean/Drivers/C02P.lean",
                     "C++20 coroutine machinery and libstdc++ as specified"]
     assumptions = ["~promise is sequenced after every invocation of that promise object", "interleavings are sequentially consistent (memory orders: C03)"]
 
     def suites(self):
-        return [C02Suite()]
+        return [C02Suite(), C02PtrSuite()]
 
 
 SPEC = C02()
